@@ -23,6 +23,14 @@ NOTES = {
  "C02b": "C03 needed seed depth 6 in quick",
  "C04b": "same region-encoding family as C10; C04 has no 255-page runs",
  "C06b": "C06 needed the ReadAll operation in the queue alphabet to reach a partial ACK",
+ "C05b": "same change as seeded C06 (found independently); needs an I/O failure inside the flush commit: C06's fault pass",
+ "C10b": "needed the 'overflow-used' seed (full file whose meta area extends into the overflow area)",
+ "C11b": "needed a configuration whose maximum size is not a multiple of the page size",
+ "C13b": "C13 catches it in the thorough tier only (back-pressure scenario on a bounded file, ~750 choice points); in the quick tier the leaked lock is reported by C12 as an exact deadlock",
+ "C14b": "OBSOLETE on the current tree: the change relied on doGrowFile truncating to the new limit, which the repair of D16 (found through this agent's side note) removed; kept for the record",
+ "C15b": "needed a fresh receiver per matrix cell (an earlier Load in the same sequence set the flag the change tests)",
+ "C16b": "needed histories in which a commit releases overflow pages and truncates the file (overflow seed + free operations)",
+ "C18b": "needs an I/O failure during a resizing open: C08 reports the hang as an exact deadlock; C18 (real file system) cannot inject it",
 }
 
 def main():
